@@ -60,6 +60,7 @@ func C05(cfg Cfg) int {
 		}
 	}
 	c05MixedBatches(run, cfg, r)
+	c05Shifted(run, cfg, r)
 	c05Wire(run, cfg)
 	return run.Finish()
 }
@@ -476,5 +477,74 @@ func c05MixedBatches(run *evid.Run, cfg Cfg, r *rand.Rand) {
 	}
 	if run.Get("mixed_batch_harmless_signed") == 0 {
 		run.Inconclusive("mixed batches: no harmless entry was ever signed")
+	}
+}
+
+// c05Shifted: generic requests whose data and domain have other lengths than 32 bytes each, built so that their
+// concatenation reads as (root, restricted domain) while the four bytes the rule inspects - the start of the domain
+// field as submitted - are a harmless type.  Whatever comes back must not be a signature of that root under the
+// restricted domain.
+func c05Shifted(run *evid.Run, cfg Cfg, r *rand.Rand) {
+	env, err := NewEnv(run, cfg, "c05-shifted", rig.StackOpts{})
+	if err != nil {
+		run.Inconclusive(err.Error())
+		return
+	}
+	defer env.Stack.Close()
+	env.FreshKeys(4)
+	harmless := []byte{9, 0, 0, 0}
+	splits := []int{0, 4, 28, 31, 33, 36, 48, 60, 64, 96}
+	for k := 0; k < cfg.N(240, 4000) && run.NumViolations() < 5; k++ {
+		restricted := [][]byte{DomainAttester, DomainProposer, DomainExit}[k%3]
+		c := append(randBytes(r, 32), randDomain(r, restricted)...)
+		split := splits[(k/3)%len(splits)]
+		var data, domain []byte
+		switch {
+		case split == 96:
+			// 64 bytes of data that already hold (root, restricted domain), plus an ordinary harmless domain.
+			data, domain = append([]byte{}, c...), randDomain(r, harmless)
+		case split == 64:
+			data, domain = append([]byte{}, c...), nil
+		default:
+			if split != 32 && split+4 <= 64 {
+				copy(c[split:split+4], harmless) // what the rule will look at
+				if split > 28 && split < 32 {
+					continue // would overwrite the restricted type itself
+				}
+			}
+			data, domain = append([]byte{}, c[:split]...), append([]byte{}, c[split:]...)
+		}
+		if bytes.Equal(c[32:36], restricted) == false {
+			continue
+		}
+		ki := k % 4
+		g := &GenCase{Key: env.Keys[ki], Name: env.Names[ki], Addr: RandAddr(r), Data: &rules.SignData{Domain: domain, Data: data}}
+		via := Via(k % 2)
+		var res []core.Result
+		var sigs [][]byte
+		pos := 0
+		if k%4 < 2 {
+			rr, ss := env.SignGen(via, g)
+			res, sigs = []core.Result{rr}, [][]byte{ss}
+		} else {
+			other := wfGen(r, env, (ki+1)%4)
+			cs := []*GenCase{other, g}
+			pos = 1
+			res, sigs = env.SignGens(via, cs)
+		}
+		run.Eval(1)
+		run.Count("shifted_length_requests", 1)
+		outcome := "none"
+		if pos < len(res) {
+			outcome = res[pos].String()
+		}
+		run.Distinct(fmt.Sprintf("shifted lengths data=%d domain=%d restricted=%x %s -> %s", len(data), len(domain), restricted, viaName(via), outcome))
+		if pos < len(sigs) && len(sigs[pos]) > 0 {
+			root := oracle.SigningRoot(b32(c[:32]), c[32:64])
+			if ok, _ := oracle.VerifySig(env.Keys[ki].Pub, root[:], sigs[pos]); ok {
+				run.Violate(fmt.Sprintf("generic endpoint, given %d bytes of data and %d bytes of domain, returned a signature that is valid for the first 32 bytes under domain type %x", len(data), len(domain), restricted),
+					map[string]any{"data_len": len(data), "domain_len": len(domain), "restricted_type": fmt.Sprintf("%x", restricted)})
+			}
+		}
 	}
 }
